@@ -1,3 +1,79 @@
 (* Properties/C08.v — XML import mirrors the document; import-export-import is stable.
-   Only statements closed by [exact]; proofs are in Proofs/. *)
-From MP Require Import Common.Base Common.Tree Common.XStr Spec.Xml Spec.Infoset Model.XmlIn.
+   Only statements closed by [exact]; proofs are in Proofs/C08_*.v.
+   Reading guide: [xel] (Spec/Infoset.v) is the lxml infoset handed to _process_element
+   (lxml.etree.fromstring is an oracle); [infoset_ok] and [mirror] (Spec/Mirror.v) are the
+   property's document class and the mirrored tree, written from the property text;
+   [process_element] (Model/XmlIn.v) is the model of metapype_io._process_element;
+   [itree_equiv] is equality of imported trees with the in-scope bindings read as a finite
+   map; [policy] is the documented white-space policy. *)
+From MP Require Import Common.Base Common.Tree Common.XStr Spec.Xml Spec.XmlSim Spec.Infoset Spec.Mirror
+  Model.XmlOut Model.XmlIn Proofs.C08_Policy Proofs.C08_Mirror Proofs.C08_Stable.
+
+(** Import mirrors the infoset: for every infoset of the class, all four (clean, collapse)
+    combinations and any literals, the import succeeds and returns the mirror. *)
+Theorem C08_mirror : forall clean collapse literals e,
+  infoset_ok e ->
+  exists t, process_element clean collapse literals e = Ok t
+            /\ itree_equiv t (mirror clean collapse literals e)
+            /\ i_nsmap (it_d t) = l_nsmap e.
+Proof. exact C08_mirror_proof. Qed.
+Print Assumptions C08_mirror.
+
+(** the implication is not vacuous, and the class is the one the harness generates
+    (infoset_okb is evaluated on every generated in-class document by the check) *)
+Theorem C08_mirror_witness : infoset_ok doc_ok /\ uri_prefix_unique doc_ok = true.
+Proof. exact doc_ok_in_class. Qed.
+Print Assumptions C08_mirror_witness.
+
+(** The model's clean branch is the documented policy, and the policy is idempotent. *)
+Theorem clean_is_policy : forall collapse x, clean_opt collapse x = policy true collapse false x.
+Proof. exact clean_opt_policy. Qed.
+Print Assumptions clean_is_policy.
+
+Theorem clean_idem : forall collapse x, clean_opt collapse (clean_opt collapse x) = clean_opt collapse x.
+Proof. exact clean_idem_proof. Qed.
+Print Assumptions clean_idem.
+
+Theorem policy_idempotent : forall clean collapse literal x,
+  policy clean collapse literal (policy clean collapse literal x) = policy clean collapse literal x.
+Proof. exact policy_idem. Qed.
+Print Assumptions policy_idempotent.
+
+(** Re-importing a text that equals an imported text b up to surrounding white space (the
+    exporter's newline and indentation) gives b again up to surrounding white space. *)
+Theorem policy_stable_under_ws : forall clean collapse lit a b,
+  policy clean collapse lit b = b ->
+  strip a = strip (otext' b) ->
+  ws_same (policy clean collapse lit (opt_text a)) b.
+Proof. exact policy_ws_stable. Qed.
+Print Assumptions policy_stable_under_ws.
+
+(** Stability, partial: the imported tree is the mirror, and if it lies in the exporter's
+    class (C07) its export is well-formed and parses back to it up to surrounding white
+    space.  Not proved in general: that the model of the import applied to that parse
+    result gives the imported tree again ([C08_stable_statement]); it is witnessed below
+    for a document with re-declared prefixes, qualified attributes, xml:lang, a comment,
+    tails and white-space text, in all four modes, by evaluation of the models. *)
+Theorem C08_stable_partial : forall clean collapse literals e t ft,
+  infoset_ok e ->
+  process_element clean collapse literals e = Ok t ->
+  to_ftree t = Some ft -> exportable ft ->
+  itree_equiv t (mirror clean collapse literals e)
+  /\ exists x, xparse (to_xml_top ft) = Some x /\ sim [] x ft.
+Proof. exact C08_stable_partial_proof. Qed.
+Print Assumptions C08_stable_partial.
+
+Definition C08_stable_full_statement : Prop := C08_stable_statement.
+
+Theorem C08_stable_witness :
+  chain_ok true false doc_ok = true /\ chain_ok true true doc_ok = true
+  /\ chain_ok false false doc_ok = true /\ chain_ok false true doc_ok = true.
+Proof. exact C08_stable_witness_proof. Qed.
+Print Assumptions C08_stable_witness.
+
+(** Known finding C08:stable:alias-prefix-redeclared: outside [uri_prefix_unique] the chain is
+    not stable (a:x comes back as b:x). *)
+Theorem C08_alias_refuted :
+  infoset_ok doc_alias /\ uri_prefix_unique doc_alias = false /\ chain_ok true false doc_alias = false.
+Proof. exact C08_alias_refuted_proof. Qed.
+Print Assumptions C08_alias_refuted.
